@@ -3,6 +3,7 @@ package main
 import (
 	_ "verifmc/props/c02"
 	_ "verifmc/props/c07"
+	_ "verifmc/props/c08"
 
 	"verifmc/internal/xs"
 )
